@@ -647,3 +647,103 @@ def replay_extparam_group(obligation=None, model=None, meta=None):
                         'observed': 'TGOV1.Sg.%s = %r, the generators named by syn have the ratings %r' % (attr, got, want),
                         'native_cmd': 'contracts/fn_address.py replay_extparam_group'}
     return {'confirmed': False, 'tried': n}
+
+
+def set_hi_name(pid):
+    """_set_hi_name: the name stored at slot r[j] of an external variable's equation is built from that variable's equation name and
+    the idx of device j -- the model's own idx list when it has one entry per slot, the variable's indexer otherwise."""
+    N, NI = fresh('N', I), fresh('NI', I)
+    S = TStr.sort
+    APP = z3.Function('_append_model_name', S, S, S)
+    E = 'vars_dict.$e'
+
+    def append_name(ex, st, args, kw, node):
+        return Opaque(APP(to_z3(args[0]), to_z3(args[1])))
+
+    def name_of(v, nm, dev):
+        tmpl = z3.Function('fstr:{} {}', S, S, S)
+        return tmpl(nm, APP(v.get('mdl.class_name').term, dev))
+
+    def mark(v):
+        v.st.ghost['in_iter'] = True
+        return True
+
+    def var_done(v):
+        if not v.st.ghost.get('in_iter'):
+            return True
+        r = v.arr(E + '.r')
+        names = v.st.content(v.local('dests')[0])
+        own, ind = v.arr('mdl.idx.v'), v.arr(E + '.indexer.v')
+        nm = v.get(E + '.ename').term
+        j = fresh('j', I)
+        dev = z3.If(N != NI, ind.arr[j], own.arr[j])
+        return z3.ForAll([j], z3.Implies(z3.And(j >= 0, j < N), names.arr[z3.ToInt(r.vals[j])] == name_of(v, nm, dev)))
+
+    def inv_inner(v):
+        k = v.local('$i1')
+        r = v.arr(E + '.r')
+        names = v.st.content(v.local('dests')[0])
+        own, ind = v.arr('mdl.idx.v'), v.arr(E + '.indexer.v')
+        nm = v.get(E + '.ename').term
+        j = fresh('j', I)
+        dev = z3.If(N != NI, ind.arr[j], own.arr[j])
+        return z3.ForAll([j], z3.Implies(z3.And(j >= 0, j < k), names.arr[z3.ToInt(r.vals[j])] == name_of(v, nm, dev)))
+    c = Contract(
+        FS, '_set_hi_name', pid=pid,
+        params={'mdl': TObj(), 'vars_dict': TColl(keysort=S), 'dests': None},
+        schema={'mdl.class_name': TStr(), 'mdl.idx.v': TSeq(elem=S), E + '.r': TArr(n=N, kind='int'), E + '.ename': TStr(), E + '.tex_ename': TStr(),
+                E + '.indexer.v': TSeq(elem=S), 'h_name': TSeq(elem=S), 'h_tex_name': TSeq(elem=S)},
+        requires=[('sizes', lambda v: z3.And(N >= 0, NI >= 0, v.arr('mdl.idx.v').n == NI, v.arr(E + '.indexer.v').n == N)),
+                  ('addresses-distinct-and-in-range (C10 bijection)', lambda v: z3.And(
+                      z3.ForAll([J1, J2], z3.Implies(z3.And(J1 >= 0, J1 < J2, J2 < N), v.arr(E + '.r').vals[J1] != v.arr(E + '.r').vals[J2])),
+                      z3.ForAll([J1], z3.Implies(z3.And(J1 >= 0, J1 < N), z3.And(
+                          v.arr(E + '.r').vals[J1] >= 0, z3.ToInt(v.arr(E + '.r').vals[J1]) < v.arr('h_name').n)))))],
+        calls={'_append_model_name': append_name},
+        globals_={'_append_model_name': Func('_append_model_name')},
+        loops={0: Loop(inv=[('every-slot-r[j]-of-the-variable-just-processed-is-named-<equation name> <device j>', var_done)],
+                       assume=[('mark', mark)],
+                       frame=['loc:h_name', 'loc:h_tex_name', '$item', '$idxall', '$idx_item', '$addr', 'ghost:in_iter']),
+               1: Loop(inv=[('slots-written-so-far-carry-this-variable-and-the-device-idx', inv_inner)],
+                       frame=['loc:h_name', 'loc:h_tex_name', '$idx_item', '$addr'])},
+        ensures=[], modifies=['h_name', 'h_tex_name'])
+    c.check_bounds = True
+
+    def pre_state(st):
+        st.env['dests'] = (st.load('h_name'), st.load('h_tex_name'))
+        st.ghost.pop('in_iter', None)
+    c.pre_state = pre_state
+    return c
+
+
+def replay_hi_names(obligation=None, model=None, meta=None):
+    """native: after TDS.init on stock cases every slot r[j] of every external variable carries the name built from the variable's
+    equation name and the idx of device j (own idx list, or the variable's indexer when the lengths differ)"""
+    import contextlib
+    import io
+    import logging
+    import andes
+    from andes.system import _append_model_name
+    logging.getLogger('andes').setLevel(logging.CRITICAL)
+    n = 0
+    for case in ('kundur/kundur_full.xlsx', 'ieee14/ieee14_full.xlsx'):
+        with contextlib.redirect_stdout(io.StringIO()), contextlib.redirect_stderr(io.StringIO()):
+            ss = andes.load(andes.get_case(case), default_config=True, no_output=True)
+            ss.PFlow.run()
+            ss.TDS.init()
+        for mname, m in ss.models.items():
+            if m.n == 0:
+                continue
+            for group, names in ((m.states_ext, ss.dae.h_name), (m.algebs_ext, ss.dae.i_name)):
+                for vname, var in group.items():
+                    idxall = var.indexer.v if len(var.r) != len(m.idx.v) else m.idx.v
+                    for j, (dev, addr) in enumerate(zip(idxall, var.r)):
+                        n += 1
+                        want = '%s %s' % (var.ename, _append_model_name(m.class_name, dev))
+                        if names[addr] != want:
+                            return {'confirmed': True, 'inputs': {'case': case, 'variable': '%s.%s' % (mname, vname), 'device position': j},
+                                    'observed': 'slot %d is named %r, expected %r' % (int(addr), names[addr], want), 'native_cmd': 'contracts/fn_address.py replay_hi_names'}
+    return {'confirmed': False, 'tried': n}
+
+replay_hi_names.real_system = True       # drives the real program on stock inputs: a crash inside repository code is a confirmed failure
+
+replay_extparam_group.real_system = True       # drives the real program on stock inputs: a crash inside repository code is a confirmed failure
